@@ -558,10 +558,12 @@ Definition verify_mtp (g : guards) (p : option mtpf) : res bool :=
   | Diverge => Diverge
   end.
 
-(* answer of the DID resolver *)
+(* answer of the DID resolver: a transport error, or a document that the resolver
+   decodes with json into DIDDocument (HTTPDIDResolver.Resolve) *)
 Inductive didans :=
-| DErr                                 (* Resolve returned an error (incl. undecodable document) *)
-| DDoc (info : option (option bool)).  (* None: no Iden3StateInfo2023 method; Some p: its `published` pointer *)
+| DErr
+| DDoc (dec : diddocj)                 (* shape of the document, for the decoder *)
+       (info : option (option bool)).  (* None: no Iden3StateInfo2023 method; Some p: its `published` pointer *)
 
 Record issuerf := mkissuerf {
   i_did_ok : bool;             (* w3c.ParseDID(issuerData.id) *)
@@ -580,8 +582,15 @@ Definition check_published (g : guards) (i : issuerf) : res unit :=
   | HGood =>
       match i_resolve i with
       | DErr => Err "did-resolve"
-      | DDoc None => Err "no-stateinfo"
-      | DDoc (Some pub) =>
+      | DDoc dec info =>
+        match diddoc_unmarshal g dec with
+        | Err _ => Err "did-resolve"
+        | Panic w => Panic w
+        | Diverge => Diverge
+        | Ok _ =>
+        match info with
+        | None => Err "no-stateinfo"
+        | Some pub =>
           published <- match pub with
                        | None => if g_published g then Ok false
                                  else Panic "nil dereference: *Published"
@@ -594,6 +603,8 @@ Definition check_published (g : guards) (i : issuerf) : res unit :=
           | Some false => Err "not-published-not-genesis"
           | Some true => Ok tt
           end
+        end
+        end
       end
   end.
 
@@ -604,7 +615,9 @@ Inductive statusraw :=
 | RSOther.
 
 (* resolver answer + the facts ValidateCredentialStatus consults *)
-Inductive resolverans := RAErr | RAns (issuer : statef) (mtp : mtpf).
+Inductive resolverans :=
+| RAErr                                             (* transport / status code / size limit *)
+| RAns (dec : statusj) (issuer : statef) (mtp : mtpf).  (* body, decoded by IssuerResolver with json *)
 
 Record statusf := mkstatusf {
   st_raw : statusraw;
@@ -618,7 +631,11 @@ Definition validate_status (g : guards) (st : statusf) : res unit :=
   if negb (st_registered st) then Err "status-type" else
   match st_answer st with
   | RAErr => Err "status-resolver"
-  | RAns iss mtp =>
+  | RAns dec iss mtp =>
+      _ <- match status_unmarshal dec with
+           | Err _ => Err "status-resolver"
+           | other => other
+           end ;;
       ok <- validate_tree_state iss ;;
       if negb ok then Err "tree-state" else
       match s_rtr iss with
